@@ -326,10 +326,16 @@ func (t *Trie) mergeScopes(sp *[]scope) {
 			if scopes[i].stop < scopes[i+1].stop {
 				scopes[i].stop = scopes[i+1].stop
 			}
+			back := false
 			if scopes[i].start > scopes[i+1].start {
 				scopes[i].start = scopes[i+1].start
+				// the interval grew to the left: it may now reach its predecessor
+				back = i > 0
 			}
 			scopes = append(scopes[:i+1], scopes[i+2:]...)
+			if back {
+				i--
+			}
 		} else {
 			i++
 		}
